@@ -25,6 +25,7 @@ def arpEnv (openErr : GoErr) : Gen.ArpEnv ArpState where
     | [] => .ok (([], readClosed), st)
     | f :: r => .ok ((f, none), { st with rest := r })
   Go_sendARPPing := fun _ _ _ st => .ok ((), { st with senders := st.senders + 1 })
+  SockClose := fun st => .ok (none, st)      -- resource accounting is `Code/Bridge15.lean` (C19Code); here the close is a no-op
 
 /-- Result of `catchARPReply` / `Ping` for the model's verdict. -/
 def arpResToGen : Option Bytes → Bytes × GoErr
@@ -45,6 +46,7 @@ def runEnv (openErr : GoErr) : Gen.RunEnv RunState where
     | [] => .ok (([], readClosed), st)
     | f :: r => .ok ((f, none), { st with rest := r })
   Go_handleMsg := fun _ src dst msg st => .ok ((), { st with handled := st.handled ++ [(src, dst, msg)] })
+  SockClose := fun st => .ok (none, st)
   Ping := fun _ _ _ st =>
     match st.pings with
     | [] => .ok (([], some "timeout"), st)
